@@ -20,7 +20,7 @@ ZERO = ["nl.libraries=", "nl.top=", "nl.set_top_instance", "lib.definitions=", "
         "nl.new"]
 WEIGHTS = {k: 0 for k in ZERO}
 WEIGHTS.update({"el.name=": 10, "el.del_name": 3, "el.set": 10, "el.del": 4, "el.pop": 4,
-                "el.clone_container": 2,
+                "el.clone_container": 2, "ns.default=": 2,
                 "def.create_port": 3, "def.create_cable": 3, "def.create_child": 3,
                 "lib.create_definition": 3, "nl.create_library": 3,
                 "def.add_port": 4, "def.add_cable": 4, "def.add_child": 4, "lib.add_definition": 4,
@@ -245,6 +245,12 @@ class NamingMonitor:
                 continue
             tag2 = ":in-clone" if id(P) in self.U.cloned_ids else ""
             for tag, children, getter in scopes_of(P):
+                # the policy is inherited: every member carries its container's
+                for c in children:
+                    if policy(c) != pol:
+                        self.res.violate("C10:member-policy-differs-from-container:%s" % tag,
+                                         "%r in %r" % (policy(c), pol))
+                        return
                 # uniqueness / legality by scan
                 names = [c.data[".NAME"] for c in children
                          if ".NAME" in c.data and c.data[".NAME"] is not None]
@@ -318,7 +324,9 @@ class C10(Prop):
             "at the end, and list(get_X(parent, value, key=K)) == scan for every involved scope, key and "
             "alphabet value. non-trivial = >=1 edit predicted to collide and >=1 lookup that hits; "
             "distinct = distinct case JSON")
-    ASSUMPTIONS = ["one policy per history (no namespace conversion); key .NS is never edited",
+    ASSUMPTIONS = ["the default policy may change during a history (elements built under one policy are "
+                   "added to containers of the other and converted); refusal is only predicted when "
+                   "element and container have the same policy; key .NS is never edited directly",
                    "under a policy that does not constrain identifiers (DEFAULT) several siblings may "
                    "share one; then a lookup must return a non-empty subset of the scan",
                    "identifier lookups under EDIF are case-insensitive as the get_* docstrings document"]
